@@ -278,7 +278,7 @@ class SimDisk:
     """The simulated kernel: files, descriptors, step log, fault plan."""
 
     def __init__(self, bufsize=8192, copy_chunk=0, locale_encoding="utf-8",
-                 tmp_same_fs=False):
+                 tmp_same_fs=False, text_chunk=None):
         self.files = {}  # path -> Inode
         self.dirs = {ROOT, DB_DIR, TMP_DIR}
         self.fds = {}  # fd -> SimRaw
@@ -289,6 +289,7 @@ class SimDisk:
         self.copy_chunk = copy_chunk  # 0 = whole file in one chunk
         self.locale_encoding = locale_encoding
         self.tmp_same_fs = tmp_same_fs
+        self.text_chunk = text_chunk  # TextIOWrapper read/write chunk knob
         # step accounting
         self.seq = 0
         self.cur_op = -1
@@ -424,6 +425,8 @@ class SimDisk:
             return buf
         enc = encoding or self.locale_encoding
         text = SimText(buf, encoding=enc, errors=errors, newline=newline)
+        if self.text_chunk:
+            text._CHUNK_SIZE = self.text_chunk
         text._sim_init(self, raw, path, mode, delete)
         return text
 
